@@ -44,7 +44,9 @@ def run(ctx, chk):
     # ---------------- H1 update_order
     b, res, _ = L.paths("update_order")
     for r in res:
-        if r.kind != "return" or r.flags:
+        if not LR.usable(chk, "H0", b.defp, b.span, r):
+            continue
+        if r.kind != "return":
             continue
         arm = LR.first_label(r)
         qev = L.queue_events(r.trace, r.facts)
@@ -63,7 +65,7 @@ def run(ctx, chk):
     price_self = ("field", ("val", SELF), None, L.price_field)
     nvis = 0
     for r in res:
-        if r.kind not in ("return", "backedge") or r.flags:
+        if not LR.usable(chk, "H0", fn, b.span, r):
             continue
         mi, marker = main_loop_info(r, fn)
         if marker is None:
